@@ -1136,7 +1136,7 @@ def correspondence(ctx):
               "frame-count class).")
     r = Rng(ctx.seed).fork("c08")
     n_rand = ctx.budget(1300, 40000)
-    deadline = time.time() + ctx.budget(42, 700)
+    deadline = time.time() + ctx.budget(30, 700)
     progs = boundary_programs()
     for i in range(n_rand):
         local = None if i % 12 else r.choice(["SystemExit", "KeyboardInterrupt"])
